@@ -540,6 +540,48 @@ impl Prop for C03 {
     }
 }
 
+/// RRT* only: long-lived trees. The planner returns at the first goal hit, so edges made by
+/// rewiring reach a returned path only when the tree kept growing for a while before the hit:
+/// low goal bias, larger neighbourhoods, several obstacles and repeated solve calls on one tree.
+pub struct C03Star;
+impl Prop for C03Star {
+    type Case = PlanCase;
+    const ID: &'static str = "C03";
+    const PART: &'static str = "rrtstar-aged-trees";
+    const RULE: &'static str = "RRT* only: radius 1.5-5 x step, goal bias <= 0.1, up to 6 obstacles, setup followed by 3-6 solve calls on the same tree (each returns at the next goal hit), budgets 100-400 iterations per call; same oracles A and B on every returned path. Non-trivial = a returned path containing an edge created by rewiring (parent newer than child) or by choose-parent.";
+    fn random_cases(tier: Tier) -> usize {
+        tier.pick(10_000, 80_000)
+    }
+    fn gen(ch: &mut Ch, _tier: Tier) -> PlanCase {
+        let prof = Profile {
+            planners: vec![PlannerTag::RRTStar],
+            p_thin_walls: 0.4,
+            max_obst: 6,
+            big_radius: true,
+            p_nonconvex: 0.2,
+            ..Default::default()
+        };
+        let mut c = gen_plan_case(ch, &prof);
+        c.radius = ch.range(1.5, 5.0) * c.step;
+        c.goal_bias = ch.pick(&[0.0, 0.02, 0.05, 0.1]);
+        let n = 3 + ch.below(4);
+        c.ops = vec![Op::Setup(0)];
+        for _ in 0..n {
+            c.ops.push(Op::Solve {
+                budget: ch.int(100, 400) as u64,
+            });
+        }
+        c
+    }
+    fn check(case: &PlanCase, ctx: &mut Ctx) {
+        run_and(case, ctx, |case, trace, ctx| {
+            c03_oracle(case, trace, ctx);
+            let aged = ctx.labels.iter().any(|l| l == "edge:rrtstar-rewired" || l == "edge:rrtstar-tree-edge");
+            ctx.nontrivial = aged;
+        });
+    }
+}
+
 // ---------------------------------------------------------------------------------------------
 // C04
 // ---------------------------------------------------------------------------------------------
